@@ -1,6 +1,7 @@
 from abc import abstractmethod
 
 from sqllineage.core.models import Column, Table
+from sqllineage.utils.verif import tap
 
 
 class MetaDataProvider:
@@ -32,6 +33,7 @@ class MetaDataProvider:
             cols = self._session_metadata[key]
         else:
             cols = self._get_table_columns(str(table.schema), table.raw_name, **kwargs)
+        tap("session.lookup", provider=self, table=key, hit=key in self._session_metadata, columns=cols)
         columns = []
         for col in cols:
             column = Column(col)
@@ -46,10 +48,12 @@ class MetaDataProvider:
     def register_session_metadata(self, table: Table, columns: list[Column]) -> None:
         """Register session-level metadata, like temporary table or view created."""
         self._session_metadata[str(table)] = [c.raw_name for c in columns]
+        tap("session.register", provider=self, table=str(table), columns=[c.raw_name for c in columns])
 
     def deregister_session_metadata(self) -> None:
         """Deregister session-level metadata."""
         self._session_metadata.clear()
+        tap("session.deregister", provider=self)
 
     def session(self):
         return MetaDataSession(self)
